@@ -236,6 +236,12 @@ def _check(prop, tier, seed, nshards, binpath, outdir, evpath, t0):
         n_replayed += 1
         k = known_by_replay.get(os.path.normpath(rp))
         if rr["violated"]:
+            cause = rr.get("cause") or ""
+            if cause.startswith("known:") and not (k and k.get("status") == "known" and cause == "known:" + k["id"]):
+                # classified as a known finding that this replay file is not registered for
+                kk = [x for x in known if x.get("status") == "known" and "known:" + x["id"] == cause]
+                if kk:
+                    continue
             if k and k.get("status") == "known":
                 known_lines.append("KNOWN-FINDING: property=%s %s [%s] (replay %s still fails: %s)" % (
                     prop, k["what"], k["id"], os.path.relpath(rp, VERIF), rr.get("cause")))
@@ -305,7 +311,7 @@ def _check(prop, tier, seed, nshards, binpath, outdir, evpath, t0):
         for v in d.get("violations") or []:
             v = dict(v)
             v["shard"] = d["shard"]
-            if v.get("cause") == "harness":
+            if v.get("cause") in ("harness", "backend-disagreement"):
                 infra.append("shard %d campaign %s: %s" % (d["shard"], v.get("campaign"), v.get("message")))
             else:
                 violations.append(v)
